@@ -1,6 +1,8 @@
 package main
 
 import (
+	"go/token"
+
 	"golang.org/x/tools/go/ssa"
 )
 
@@ -101,4 +103,113 @@ func c09ListenerReleased(w *World, r *Report, fn *ssa.Function, g *ssa.Go, siteK
 	}
 
 	return true
+}
+
+// R-C09-6: an abandoned debug session ends wherever it is waiting.
+//
+// debugger.Close (and end of input on a terminal) deliver the text "exit" to
+// whichever readLine call the session's goroutine is parked in. A loop that
+// keeps reading lines and gluing them onto what it has (the continuation
+// prompt of a command whose brackets are not balanced yet) must recognise that
+// text and stop: glued onto the partial command it changes nothing, the loop
+// asks for another line, and the goroutine of the abandoned session waits on
+// its input channel for ever.
+func c09SessionInputLoops(w *World, r *Report) {
+	r.Rule("R-C09-6", "every loop in package debugger that reads a line (session.readLine) and concatenates it onto text it already holds compares that line with the exit command and leaves the loop (or returns) on a match", 1)
+
+	dp := w.pkg("internal/language/debugger")
+	if dp == nil {
+		return
+	}
+
+	n := 0
+
+	for _, fn := range w.srcFuncs(dp) {
+		for _, li := range naturalLoops(fn) {
+			var reads []*ssa.Call
+
+			for b := range li.body {
+				for _, in := range b.Instrs {
+					if c, ok := in.(*ssa.Call); ok && callID(c.Common()) == "internal/language/debugger.session.readLine" {
+						reads = append(reads, c)
+					}
+				}
+			}
+
+			for _, rd := range reads {
+				// is the line glued onto something?
+				glued := false
+
+				for b := range li.body {
+					for _, in := range b.Instrs {
+						if bo, ok := in.(*ssa.BinOp); ok && bo.Op == token.ADD && (bo.X == ssa.Value(rd) || bo.Y == ssa.Value(rd)) {
+							glued = true
+						}
+					}
+				}
+
+				if !glued {
+					continue
+				}
+
+				n++
+
+				key := fnKey(fn) + "|accumulating input loop stops on exit"
+				if n > 1 {
+					key += " #" + sprintInt(n)
+				}
+
+				// a comparison of (something derived from) the line with "exit" inside the loop,
+				// whose true edge leaves the loop
+				leaves := false
+
+				for b := range li.body {
+					if len(b.Instrs) == 0 {
+						continue
+					}
+
+					ifi, ok := b.Instrs[len(b.Instrs)-1].(*ssa.If)
+					if !ok {
+						continue
+					}
+
+					bo, ok := ifi.Cond.(*ssa.BinOp)
+					if !ok || (bo.Op != token.EQL && bo.Op != token.NEQ) {
+						continue
+					}
+
+					var other ssa.Value
+
+					if s, isC := constString(bo.X); isC && s == "exit" {
+						other = bo.Y
+					} else if s, isC := constString(bo.Y); isC && s == "exit" {
+						other = bo.X
+					}
+
+					if other == nil || !derivesFrom(other, func(s ssa.Value) bool { return s == ssa.Value(rd) }, func(string) bool { return true }) {
+						continue
+					}
+
+					matchSucc := b.Succs[0]
+					if bo.Op == token.NEQ {
+						matchSucc = b.Succs[1]
+					}
+
+					if !li.body[matchSucc] {
+						leaves = true
+					}
+				}
+
+				if leaves {
+					r.Discharge("R-C09-6", key, w.pos(rd.Pos()), "the line is compared with \"exit\" and a match leaves the loop")
+				} else {
+					r.Violate("R-C09-6", key, w.pos(rd.Pos()), "this loop glues every line it reads onto the text it holds and never looks for the exit command: the \"exit\" debugger.Close delivers to an abandoned session parked here is appended to the partial command, nothing changes, and the session's goroutine waits for input for ever (on a terminal, end of input spins the same loop)")
+				}
+			}
+		}
+	}
+
+	if n == 0 {
+		r.Anchor("R-C09-6", "a loop in package debugger that accumulates lines read with session.readLine")
+	}
 }
